@@ -75,7 +75,9 @@ MUTATION_DRILLS = [
 
 CODES = [b"a", b"ba", b"zhong guo", b"ni hao ma", b"x", b" y", b"q'r", b"lv", b"ABC", b"a b c d e f g h"]
 TEXTS = ["A", "中文", "# hash", "a b", "x#y", " lead", "trail ", "テスト", "é", "#", "c=1 x", "a=b", "T\r", "𠀀"]
-DEES = ["0", "0.5", "1", "2.25", "1e-08", "10000", "0.001"]
+# the last three: weights that decayed into the subnormal range / below it - librime prints them (operator<<(double)) but
+# std::stod throws std::out_of_range when it reads them back (ERANGE), so Unpack stops at the d= item
+DEES = ["0", "0.5", "1", "2.25", "1e-08", "10000", "0.001"] * 3 + ["6.88085e-316", "1.2e-320", "3e-400"]
 # INT_MAX itself is kept out of the random stream: a weight of 2147483647 in an import file makes
 # `(v.commits + 1) / kS` in table_db.cc:32 overflow (UBSan aborts).  That is undefined behaviour of
 # the import path but not a clause of C17; it is reported as an observation, not as a violation.
@@ -127,7 +129,7 @@ OOD_KEYS = [b"notab", b"two\ttabs\there", b"#c \tT", b"nospace\tT", b"\x02ctl \t
             b"a \tt\x0b", b"\x7f \tT", b"\xe4\xb8\xad \tT"]
 OOD_VALUES = [b"", b"c=3", b"c=x d=1 t=5", b"t=7 c=2", b"c=3 d=zz t=9", b"c=-2147483649 t=3", b"c= 4 d=1 t= 5",
               b"c=+4  d=.5 t=+6", b"c=4x d=1e3 t=9z", b"t=-1 c=2", b"t=18446744073709551616", b"c=1 d=inf t=2",
-              b"c=1 d=-NaN t=2", b"x=1 c=9", b"c==3", b"=", b"c=2147483648", b"c=\t12 t=\n8", b"c=5 d=1 t=3 c=6"]
+              b"c=1 d=-NaN t=2", b"c=2 d=1e+400 t=3", b"c=-3 d=-2.5e999 t=4", b"c=4 d=0.0e999 t=5", b"x=1 c=9", b"c==3", b"=", b"c=2147483648", b"c=\t12 t=\n8", b"c=5 d=1 t=3 c=6"]
 
 IMPORT_LINES = [b"# comment", b"", b"   ", b"# no comment", b"#@/tick\t77", b"#@bad", b"onlyone", b"\tnocode", b"text\t",
                 b"#hash\tcode\t3", b"T\t a \t+3", b"T\ta\t12abc", b"T\ta\t", b"T\ta\tabc", b"T\ta\t-7", b"T2\t a b \t0",
@@ -182,7 +184,7 @@ def gen_case(rng, cid, ood=False, force=None):
     g = 0
     if rng.random() < 0.3:
         g = rng.choice([-1, -2, -3, -4, 1, 7, 1000, INT_MIN])
-    kinds = ["backup"] * 3 + ["restore"] * 5 + ["sync"] * 3 + ["merge"] * 4 + ["export", "import", "import", "ubackup"]
+    kinds = ["backup"] * 3 + ["restore"] * 5 + ["sync"] * 3 + ["merge"] * 4 + ["export", "import", "import", "ubackup", "foreign"]
     if ood:
         kinds += ["urestore", "restoref", "restoref"]
     if g != 0:
@@ -205,6 +207,11 @@ def gen_case(rng, cid, ood=False, force=None):
         elif k in ("import", "urestore", "restoref"):
             s = rng.choice([0, 1, 2, 7] if k == "import" else [0, 1, 2, 6])
             ops.append((k, i, s))
+        elif k == "foreign":
+            # the dictionary carries another installation's id: the next Backup / Synchronize re-creates its metadata first
+            ops.append((k, i, None))
+            if rng.random() < 0.8:
+                ops.append((rng.choice(["backup", "backup", "sync"]), i, None))
         else:
             ops.append((k, i, None))
     return dict(id=cid, g=g, dbs=dbs, files=files, ops=ops[:14], ood=ood, paint=False)
@@ -728,9 +735,13 @@ def run(ctx):
                         stats["idempotence_pairs"] += 1
                         if prev[1]["ents"] != after["ents"] or prev[1]["tick"] != after["tick"]:
                             bad.append(("second-merge-changes", b""))
-                elif k in ("backup", "export", "ubackup"):
+                elif k in ("backup", "export", "ubackup", "foreign"):
                     if before["ents"] != after["ents"]:
                         bad.append(("read-only-op-changed-entries", b""))
+                    # a snapshot is a copy: writing one leaves the dictionary's tick alone (otherwise a later merge ends below
+                    # the maximum of the two ticks the property speaks of)
+                    if before["tick"] != after["tick"]:
+                        bad.append(("read-only-op-changed-tick", b"tick before %s, after %s" % (str(before["tick"]).encode(), str(after["tick"]).encode())))
                 elif k == "import":
                     for kk in before["ents"]:
                         if kk not in after["ents"]:
